@@ -9,6 +9,10 @@ type nat =
 | O
 | S of nat
 
+type ('a, 'b) sum =
+| Inl of 'a
+| Inr of 'b
+
 (** val fst : ('a1 * 'a2) -> 'a1 **)
 
 let fst = function
@@ -37,6 +41,13 @@ type comparison =
 | Lt
 | Gt
 
+(** val compOpp : comparison -> comparison **)
+
+let compOpp = function
+| Eq -> Eq
+| Lt -> Gt
+| Gt -> Lt
+
 module Coq__1 = struct
  (** val add : nat -> nat -> nat **)
  let rec add n0 m =
@@ -45,6 +56,15 @@ module Coq__1 = struct
    | S p -> S (add p m)
 end
 include Coq__1
+
+(** val sub : nat -> nat -> nat **)
+
+let rec sub n0 m =
+  match n0 with
+  | O -> n0
+  | S k -> (match m with
+            | O -> n0
+            | S l -> sub k l)
 
 type positive =
 | XI of positive
@@ -59,6 +79,29 @@ type z =
 | Z0
 | Zpos of positive
 | Zneg of positive
+
+module Nat =
+ struct
+  (** val eqb : nat -> nat -> bool **)
+
+  let rec eqb n0 m =
+    match n0 with
+    | O -> (match m with
+            | O -> true
+            | S _ -> false)
+    | S n' -> (match m with
+               | O -> false
+               | S m' -> eqb n' m')
+
+  (** val max : nat -> nat -> nat **)
+
+  let rec max n0 m =
+    match n0 with
+    | O -> m
+    | S n' -> (match m with
+               | O -> n0
+               | S m' -> S (max n' m'))
+ end
 
 module Pos =
  struct
@@ -122,6 +165,13 @@ module Coq_Pos =
   | XI p -> XI (XO p)
   | XO p -> XI (pred_double p)
   | XH -> XH
+
+  (** val pred_N : positive -> n **)
+
+  let pred_N = function
+  | XI p -> Npos (XO p)
+  | XO p -> Npos (pred_double p)
+  | XH -> N0
 
   type mask = Pos.mask =
   | IsNul
@@ -196,6 +246,20 @@ module Coq_Pos =
   | XI n' -> f (iter f (iter f x n') n')
   | XO n' -> iter f (iter f x n') n'
   | XH -> f x
+
+  (** val div2 : positive -> positive **)
+
+  let div2 = function
+  | XI p0 -> p0
+  | XO p0 -> p0
+  | XH -> XH
+
+  (** val div2_up : positive -> positive **)
+
+  let div2_up = function
+  | XI p0 -> succ p0
+  | XO p0 -> p0
+  | XH -> XH
 
   (** val compare_cont : comparison -> positive -> positive -> comparison **)
 
@@ -282,6 +346,24 @@ module Coq_Pos =
              | XO _ -> N0
              | _ -> Npos XH)
 
+  (** val ldiff : positive -> positive -> n **)
+
+  let rec ldiff p q =
+    match p with
+    | XI p0 ->
+      (match q with
+       | XI q0 -> coq_Ndouble (ldiff p0 q0)
+       | XO q0 -> coq_Nsucc_double (ldiff p0 q0)
+       | XH -> Npos (XO p0))
+    | XO p0 ->
+      (match q with
+       | XI q0 -> coq_Ndouble (ldiff p0 q0)
+       | XO q0 -> coq_Ndouble (ldiff p0 q0)
+       | XH -> Npos p)
+    | XH -> (match q with
+             | XO _ -> Npos XH
+             | _ -> N0)
+
   (** val shiftl : positive -> n -> positive **)
 
   let shiftl p = function
@@ -321,6 +403,12 @@ module N =
   let double = function
   | N0 -> N0
   | Npos p -> Npos (XO p)
+
+  (** val succ_pos : n -> positive **)
+
+  let succ_pos = function
+  | N0 -> XH
+  | Npos p -> Coq_Pos.succ p
 
   (** val add : n -> n -> n **)
 
@@ -468,6 +556,15 @@ module N =
                  | N0 -> N0
                  | Npos q -> Coq_Pos.coq_land p q)
 
+  (** val ldiff : n -> n -> n **)
+
+  let ldiff n0 m =
+    match n0 with
+    | N0 -> N0
+    | Npos p -> (match m with
+                 | N0 -> n0
+                 | Npos q -> Coq_Pos.ldiff p q)
+
   (** val shiftl : n -> n -> n **)
 
   let shiftl a n0 =
@@ -496,12 +593,139 @@ module N =
 
 module Z =
  struct
+  (** val double : z -> z **)
+
+  let double = function
+  | Z0 -> Z0
+  | Zpos p -> Zpos (XO p)
+  | Zneg p -> Zneg (XO p)
+
+  (** val succ_double : z -> z **)
+
+  let succ_double = function
+  | Z0 -> Zpos XH
+  | Zpos p -> Zpos (XI p)
+  | Zneg p -> Zneg (Coq_Pos.pred_double p)
+
+  (** val pred_double : z -> z **)
+
+  let pred_double = function
+  | Z0 -> Zneg XH
+  | Zpos p -> Zpos (Coq_Pos.pred_double p)
+  | Zneg p -> Zneg (XI p)
+
+  (** val pos_sub : positive -> positive -> z **)
+
+  let rec pos_sub x y =
+    match x with
+    | XI p ->
+      (match y with
+       | XI q -> double (pos_sub p q)
+       | XO q -> succ_double (pos_sub p q)
+       | XH -> Zpos (XO p))
+    | XO p ->
+      (match y with
+       | XI q -> pred_double (pos_sub p q)
+       | XO q -> double (pos_sub p q)
+       | XH -> Zpos (Coq_Pos.pred_double p))
+    | XH ->
+      (match y with
+       | XI q -> Zneg (XO q)
+       | XO q -> Zneg (Coq_Pos.pred_double q)
+       | XH -> Z0)
+
+  (** val add : z -> z -> z **)
+
+  let add x y =
+    match x with
+    | Z0 -> y
+    | Zpos x' ->
+      (match y with
+       | Z0 -> x
+       | Zpos y' -> Zpos (Coq_Pos.add x' y')
+       | Zneg y' -> pos_sub x' y')
+    | Zneg x' ->
+      (match y with
+       | Z0 -> x
+       | Zpos y' -> pos_sub y' x'
+       | Zneg y' -> Zneg (Coq_Pos.add x' y'))
+
   (** val opp : z -> z **)
 
   let opp = function
   | Z0 -> Z0
   | Zpos x0 -> Zneg x0
   | Zneg x0 -> Zpos x0
+
+  (** val sub : z -> z -> z **)
+
+  let sub m n0 =
+    add m (opp n0)
+
+  (** val mul : z -> z -> z **)
+
+  let mul x y =
+    match x with
+    | Z0 -> Z0
+    | Zpos x' ->
+      (match y with
+       | Z0 -> Z0
+       | Zpos y' -> Zpos (Coq_Pos.mul x' y')
+       | Zneg y' -> Zneg (Coq_Pos.mul x' y'))
+    | Zneg x' ->
+      (match y with
+       | Z0 -> Z0
+       | Zpos y' -> Zneg (Coq_Pos.mul x' y')
+       | Zneg y' -> Zpos (Coq_Pos.mul x' y'))
+
+  (** val pow_pos : z -> positive -> z **)
+
+  let pow_pos z0 =
+    Coq_Pos.iter (mul z0) (Zpos XH)
+
+  (** val pow : z -> z -> z **)
+
+  let pow x = function
+  | Z0 -> Zpos XH
+  | Zpos p -> pow_pos x p
+  | Zneg _ -> Z0
+
+  (** val compare : z -> z -> comparison **)
+
+  let compare x y =
+    match x with
+    | Z0 -> (match y with
+             | Z0 -> Eq
+             | Zpos _ -> Lt
+             | Zneg _ -> Gt)
+    | Zpos x' -> (match y with
+                  | Zpos y' -> Coq_Pos.compare x' y'
+                  | _ -> Gt)
+    | Zneg x' ->
+      (match y with
+       | Zneg y' -> compOpp (Coq_Pos.compare x' y')
+       | _ -> Lt)
+
+  (** val leb : z -> z -> bool **)
+
+  let leb x y =
+    match compare x y with
+    | Gt -> false
+    | _ -> true
+
+  (** val ltb : z -> z -> bool **)
+
+  let ltb x y =
+    match compare x y with
+    | Lt -> true
+    | _ -> false
+
+  (** val geb : z -> z -> bool **)
+
+  let geb x y =
+    match compare x y with
+    | Lt -> false
+    | _ -> true
 
   (** val eqb : z -> z -> bool **)
 
@@ -540,7 +764,108 @@ module Z =
   let of_N = function
   | N0 -> Z0
   | Npos p -> Zpos p
+
+  (** val pos_div_eucl : positive -> z -> z * z **)
+
+  let rec pos_div_eucl a b =
+    match a with
+    | XI a' ->
+      let (q, r) = pos_div_eucl a' b in
+      let r' = add (mul (Zpos (XO XH)) r) (Zpos XH) in
+      if ltb r' b
+      then ((mul (Zpos (XO XH)) q), r')
+      else ((add (mul (Zpos (XO XH)) q) (Zpos XH)), (sub r' b))
+    | XO a' ->
+      let (q, r) = pos_div_eucl a' b in
+      let r' = mul (Zpos (XO XH)) r in
+      if ltb r' b
+      then ((mul (Zpos (XO XH)) q), r')
+      else ((add (mul (Zpos (XO XH)) q) (Zpos XH)), (sub r' b))
+    | XH -> if leb (Zpos (XO XH)) b then (Z0, (Zpos XH)) else ((Zpos XH), Z0)
+
+  (** val div_eucl : z -> z -> z * z **)
+
+  let div_eucl a b =
+    match a with
+    | Z0 -> (Z0, Z0)
+    | Zpos a' ->
+      (match b with
+       | Z0 -> (Z0, a)
+       | Zpos _ -> pos_div_eucl a' b
+       | Zneg b' ->
+         let (q, r) = pos_div_eucl a' (Zpos b') in
+         (match r with
+          | Z0 -> ((opp q), Z0)
+          | _ -> ((opp (add q (Zpos XH))), (add b r))))
+    | Zneg a' ->
+      (match b with
+       | Z0 -> (Z0, a)
+       | Zpos _ ->
+         let (q, r) = pos_div_eucl a' b in
+         (match r with
+          | Z0 -> ((opp q), Z0)
+          | _ -> ((opp (add q (Zpos XH))), (sub b r)))
+       | Zneg b' -> let (q, r) = pos_div_eucl a' (Zpos b') in (q, (opp r)))
+
+  (** val div : z -> z -> z **)
+
+  let div a b =
+    let (q, _) = div_eucl a b in q
+
+  (** val modulo : z -> z -> z **)
+
+  let modulo a b =
+    let (_, r) = div_eucl a b in r
+
+  (** val div2 : z -> z **)
+
+  let div2 = function
+  | Z0 -> Z0
+  | Zpos p -> (match p with
+               | XH -> Z0
+               | _ -> Zpos (Coq_Pos.div2 p))
+  | Zneg p -> Zneg (Coq_Pos.div2_up p)
+
+  (** val shiftl : z -> z -> z **)
+
+  let shiftl a = function
+  | Z0 -> a
+  | Zpos p -> Coq_Pos.iter (mul (Zpos (XO XH))) a p
+  | Zneg p -> Coq_Pos.iter div2 a p
+
+  (** val shiftr : z -> z -> z **)
+
+  let shiftr a n0 =
+    shiftl a (opp n0)
+
+  (** val coq_land : z -> z -> z **)
+
+  let coq_land a b =
+    match a with
+    | Z0 -> Z0
+    | Zpos a0 ->
+      (match b with
+       | Z0 -> Z0
+       | Zpos b0 -> of_N (Coq_Pos.coq_land a0 b0)
+       | Zneg b0 -> of_N (N.ldiff (Npos a0) (Coq_Pos.pred_N b0)))
+    | Zneg a0 ->
+      (match b with
+       | Z0 -> Z0
+       | Zpos b0 -> of_N (N.ldiff (Npos b0) (Coq_Pos.pred_N a0))
+       | Zneg b0 ->
+         Zneg (N.succ_pos (N.coq_lor (Coq_Pos.pred_N a0) (Coq_Pos.pred_N b0))))
  end
+
+(** val nth : nat -> 'a1 list -> 'a1 -> 'a1 **)
+
+let rec nth n0 l default =
+  match n0 with
+  | O -> (match l with
+          | [] -> default
+          | x :: _ -> x)
+  | S m -> (match l with
+            | [] -> default
+            | _ :: t -> nth m t default)
 
 (** val nth_error : 'a1 list -> nat -> 'a1 option **)
 
@@ -583,11 +908,31 @@ let rec existsb f = function
 | [] -> false
 | a :: l0 -> (||) (f a) (existsb f l0)
 
+(** val filter : ('a1 -> bool) -> 'a1 list -> 'a1 list **)
+
+let rec filter f = function
+| [] -> []
+| x :: l0 -> if f x then x :: (filter f l0) else filter f l0
+
 (** val repeat : 'a1 -> nat -> 'a1 list **)
 
 let rec repeat x = function
 | O -> []
 | S k -> x :: (repeat x k)
+
+(** val wrap32 : z -> z **)
+
+let wrap32 z0 =
+  Z.sub
+    (Z.modulo
+      (Z.add z0 (Zpos (XO (XO (XO (XO (XO (XO (XO (XO (XO (XO (XO (XO (XO (XO
+        (XO (XO (XO (XO (XO (XO (XO (XO (XO (XO (XO (XO (XO (XO (XO (XO (XO
+        XH))))))))))))))))))))))))))))))))) (Zpos (XO (XO (XO (XO (XO (XO (XO
+      (XO (XO (XO (XO (XO (XO (XO (XO (XO (XO (XO (XO (XO (XO (XO (XO (XO (XO
+      (XO (XO (XO (XO (XO (XO (XO XH)))))))))))))))))))))))))))))))))) (Zpos
+    (XO (XO (XO (XO (XO (XO (XO (XO (XO (XO (XO (XO (XO (XO (XO (XO (XO (XO
+    (XO (XO (XO (XO (XO (XO (XO (XO (XO (XO (XO (XO (XO
+    XH))))))))))))))))))))))))))))))))
 
 (** val split_at : z -> z list -> z list -> z list list * z list **)
 
@@ -782,6 +1127,26 @@ let ideal hash mask1 k =
 let next mask1 i =
   N.coq_land (N.add i (Npos XH)) mask1
 
+(** val find_loop : nat -> 'a1 entry list -> n -> n -> n -> n option res **)
+
+let rec find_loop fuel cs mask1 i k =
+  match fuel with
+  | O -> ErrFuel
+  | S f ->
+    (match get cs i with
+     | Some e ->
+       if N.eqb (ekey e) k
+       then Ok (Some i)
+       else if N.eqb (ekey e) invalid
+            then Ok None
+            else find_loop f cs mask1 (next mask1 i) k
+     | None -> ErrBounds)
+
+(** val find : (n -> n) -> 'a1 ptable -> n -> n option res **)
+
+let find hash t k =
+  find_loop (length t.cells) t.cells t.mask0 (ideal hash t.mask0 k) k
+
 (** val foi_loop :
     nat -> 'a1 ptable -> n -> 'a1 entry -> ((bool * n) * 'a1 ptable) res **)
 
@@ -934,15 +1299,10 @@ let auto_find_or_insert v0 hash a e =
       let (found, pos) = p in
       Ok ((found, pos), { backend = t'; threshold = a1.threshold })))
 
-(** val dedupe_has_reserved_guard : bool **)
+(** val auto_find : (n -> n) -> 'a1 auto -> n -> n option res **)
 
-let dedupe_has_reserved_guard =
-  true
-
-(** val dedupe_reserved_key : n **)
-
-let dedupe_reserved_key =
-  N0
+let auto_find hash a k =
+  find hash a.backend k
 
 type dtable = unit auto
 
@@ -968,57 +1328,15 @@ let seen_pass guard rk s k =
          let (found, _) = p in
          Ok ((negb found), { d_tab = t'; d_seen_zero = s.d_seen_zero }))
 
-(** val dedupe_pass : dstate -> n -> (bool * dstate) res **)
+(** val seen_find : bool -> n -> dstate -> n -> bool res **)
 
-let dedupe_pass =
-  seen_pass dedupe_has_reserved_guard dedupe_reserved_key
-
-(** val filter_loop : ('a1 -> n) -> dstate -> 'a1 list -> 'a1 list res **)
-
-let rec filter_loop key s = function
-| [] -> Ok []
-| l :: r ->
-  bind (dedupe_pass s (key l)) (fun x ->
-    bind (filter_loop key (snd x) r) (fun out -> Ok
-      (if fst x then l :: out else out)))
-
-(** val dedupe : ('a1 -> n) -> 'a1 list -> 'a1 list res **)
-
-let dedupe key ls =
-  filter_loop key dedupe_init ls
-
-type pstatus =
-| PDone
-| PUnbalanced
-| PAbort
-
-(** val par_loop :
-    ('a1 -> n) -> ('a1 -> n) -> dstate -> dstate -> 'a1 list -> 'a1 list ->
-    (pstatus * ('a1 * 'a1) list) res **)
-
-let rec par_loop key key1 s0 s1 in0 in1 =
-  match in0 with
-  | [] -> Ok ((match in1 with
-               | [] -> PDone
-               | _ :: _ -> PUnbalanced), [])
-  | l0 :: r0 ->
-    (match in1 with
-     | [] -> Ok (PAbort, [])
-     | l1 :: r1 ->
-       bind (dedupe_pass s0 (key l0)) (fun x0 ->
-         if fst x0
-         then bind (dedupe_pass s1 (key1 l1)) (fun x1 ->
-                bind (par_loop key key1 (snd x0) (snd x1) r0 r1) (fun rest ->
-                  Ok ((fst rest),
-                  (if fst x1 then (l0, l1) :: (snd rest) else snd rest))))
-         else par_loop key key1 (snd x0) s1 r0 r1))
-
-(** val dedupe_par :
-    ('a1 -> n) -> ('a1 -> n) -> 'a1 list -> 'a1 list ->
-    (pstatus * ('a1 * 'a1) list) res **)
-
-let dedupe_par key key1 in0 in1 =
-  par_loop key key1 dedupe_init dedupe_init in0 in1
+let seen_find guard rk s k =
+  if (&&) guard (N.eqb k rk)
+  then Ok s.d_seen_zero
+  else bind (auto_find idhash s.d_tab k) (fun r -> Ok
+         (match r with
+          | Some _ -> true
+          | None -> false))
 
 (** val mem : n -> n list -> bool **)
 
@@ -1034,50 +1352,730 @@ let rec first_occ_from key seen = function
   then first_occ_from key seen r
   else l :: (first_occ_from key ((key l) :: seen) r)
 
-(** val first_occ : ('a1 -> n) -> 'a1 list -> 'a1 list **)
-
-let first_occ key ls =
-  first_occ_from key [] ls
-
-(** val par_spec_from :
-    ('a1 -> n) -> ('a1 -> n) -> n list -> n list -> ('a1 * 'a1) list ->
-    ('a1 * 'a1) list **)
-
-let rec par_spec_from key key1 seen0 seen1 = function
-| [] -> []
-| p :: r ->
-  let (l0, l1) = p in
-  if mem (key l0) seen0
-  then par_spec_from key key1 seen0 seen1 r
-  else if mem (key1 l1) seen1
-       then par_spec_from key key1 ((key l0) :: seen0) seen1 r
-       else (l0,
-              l1) :: (par_spec_from key key1 ((key l0) :: seen0)
-                       ((key1 l1) :: seen1) r)
-
-(** val par_spec :
-    ('a1 -> n) -> ('a1 -> n) -> ('a1 * 'a1) list -> ('a1 * 'a1) list **)
-
-let par_spec key key1 ps =
-  par_spec_from key key1 [] [] ps
-
 (** val newline : z **)
 
 let newline =
   Zpos (XO (XI (XO XH)))
 
-(** val dedupe_tool : (z list -> n) -> z list -> z list res **)
+(** val subtract_has_reserved_guard : bool **)
 
-let dedupe_tool key input =
-  bind (dedupe key (records newline true input)) (fun out -> Ok
-    (unrecords newline out))
+let subtract_has_reserved_guard =
+  true
 
-(** val dedupe_par_tool :
-    (z list -> n) -> z list -> z list -> ((pstatus * z list) * z list) res **)
+(** val cc_has_reserved_guard : bool **)
 
-let dedupe_par_tool key input0 input1 =
-  bind
-    (dedupe_par key key (records newline true input0)
-      (records newline true input1)) (fun r -> Ok (((fst r),
-    (unrecords newline (map fst (snd r)))),
-    (unrecords newline (map snd (snd r)))))
+let cc_has_reserved_guard =
+  true
+
+(** val cc_magic : z list **)
+
+let cc_magic =
+  (Zpos (XO (XO (XI (XO (XO (XI XH))))))) :: ((Zpos (XO (XI (XI (XO (XO (XI
+    XH))))))) :: ((Zpos (XO (XI (XI (XO (XI XH)))))) :: ((Zpos (XO (XI (XI
+    (XO (XO (XI XH))))))) :: ((Zpos (XI (XO (XO (XO (XO (XI
+    XH))))))) :: ((Zpos (XI (XO (XO (XO (XI XH)))))) :: ((Zpos (XI (XO (XO
+    (XO (XO (XI XH))))))) :: ((Zpos (XO (XI (XO (XO (XO (XI
+    XH))))))) :: ((Zpos (XO (XI (XO (XO (XO (XI XH))))))) :: ((Zpos (XI (XO
+    (XI (XO (XI XH)))))) :: ((Zpos (XO (XO (XO (XI (XI XH)))))) :: ((Zpos (XI
+    (XO (XI (XO (XI XH)))))) :: ((Zpos (XO (XO (XI (XO (XI XH)))))) :: ((Zpos
+    (XI (XO (XO (XI (XI XH)))))) :: ((Zpos (XO (XI (XO (XO (XI
+    XH)))))) :: ((Zpos (XO (XO (XO (XI (XI XH)))))) :: ((Zpos (XI (XI (XI (XO
+    (XI XH)))))) :: ((Zpos (XI (XO (XO (XO (XI XH)))))) :: ((Zpos (XI (XO (XO
+    (XO (XI XH)))))) :: ((Zpos (XI (XO (XO (XO (XI XH)))))) :: ((Zpos (XO (XI
+    (XO (XO (XO (XI XH))))))) :: ((Zpos (XI (XO (XO (XO (XO (XI
+    XH))))))) :: ((Zpos (XO (XO (XO (XI (XI XH)))))) :: ((Zpos (XO (XO (XI
+    (XO (XO (XI XH))))))) :: ((Zpos (XI (XI (XI (XO (XI XH)))))) :: ((Zpos
+    (XI (XI (XI (XO (XI XH)))))) :: ((Zpos (XO (XI (XI (XO (XI
+    XH)))))) :: ((Zpos (XI (XI (XI (XO (XI XH)))))) :: ((Zpos (XI (XI (XO (XO
+    (XI XH)))))) :: ((Zpos (XI (XI (XO (XO (XI XH)))))) :: ((Zpos (XI (XO (XI
+    (XO (XO (XI XH))))))) :: ((Zpos (XI (XO (XO (XI (XI
+    XH)))))) :: [])))))))))))))))))))))))))))))))
+
+(** val kSpaces : bool list **)
+
+let kSpaces =
+  false :: (false :: (false :: (false :: (false :: (false :: (false :: (false :: (false :: (true :: (true :: (true :: (true :: (true :: (false :: (false :: (false :: (false :: (false :: (false :: (false :: (false :: (false :: (false :: (false :: (false :: (false :: (false :: (false :: (false :: (false :: (false :: (true :: (false :: (false :: (false :: (false :: (false :: (false :: (false :: (false :: (false :: (false :: (false :: (false :: (false :: (false :: (false :: (false :: (false :: (false :: (false :: (false :: (false :: (false :: (false :: (false :: (false :: (false :: (false :: (false :: (false :: (false :: (false :: (false :: (false :: (false :: (false :: (false :: (false :: (false :: (false :: (false :: (false :: (false :: (false :: (false :: (false :: (false :: (false :: (false :: (false :: (false :: (false :: (false :: (false :: (false :: (false :: (false :: (false :: (false :: (false :: (false :: (false :: (false :: (false :: (false :: (false :: (false :: (false :: (false :: (false :: (false :: (false :: (false :: (false :: (false :: (false :: (false :: (false :: (false :: (false :: (false :: (false :: (false :: (false :: (false :: (false :: (false :: (false :: (false :: (false :: (false :: (false :: (false :: (false :: (false :: (false :: (false :: (false :: (false :: (false :: (false :: (false :: (false :: (false :: (false :: (false :: (false :: (false :: (false :: (false :: (false :: (false :: (false :: (false :: (false :: (false :: (false :: (false :: (false :: (false :: (false :: (false :: (false :: (false :: (false :: (false :: (false :: (false :: (false :: (false :: (false :: (false :: (false :: (false :: (false :: (false :: (false :: (false :: (false :: (false :: (false :: (false :: (false :: (false :: (false :: (false :: (false :: (false :: (false :: (false :: (false :: (false :: (false :: (false :: (false :: (false :: (false :: (false :: (false :: (false :: (false :: (false :: (false :: (false :: (false :: (false :: (false :: (false :: (false :: (false :: (false :: (false :: (false :: (false :: (false :: (false :: (false :: (false :: (false :: (false :: (false :: (false :: (false :: (false :: (false :: (false :: (false :: (false :: (false :: (false :: (false :: (false :: (false :: (false :: (false :: (false :: (false :: (false :: (false :: (false :: (false :: (false :: (false :: (false :: (false :: (false :: (false :: (false :: (false :: (false :: (false :: (false :: (false :: (false :: (false :: (false :: (false :: (false :: (false :: (false :: (false :: (false :: (false :: (false :: [])))))))))))))))))))))))))))))))))))))))))))))))))))))))))))))))))))))))))))))))))))))))))))))))))))))))))))))))))))))))))))))))))))))))))))))))))))))))))))))))))))))))))))))))))))))))))))))))))))))))))))))))))))))))))))))))))))))))))))))))))))))))))))))))
+
+(** val sc_control_bound : z **)
+
+let sc_control_bound =
+  Zpos (XO (XO (XO (XO (XO XH)))))
+
+(** val iNV_TABLE : z list **)
+
+let iNV_TABLE =
+  (Zneg XH) :: ((Zneg XH) :: ((Zneg XH) :: ((Zneg XH) :: ((Zneg XH) :: ((Zneg
+    XH) :: ((Zneg XH) :: ((Zneg XH) :: ((Zneg XH) :: ((Zneg XH) :: ((Zneg
+    XH) :: ((Zneg XH) :: ((Zneg XH) :: ((Zneg XH) :: ((Zneg XH) :: ((Zneg
+    XH) :: ((Zneg XH) :: ((Zneg XH) :: ((Zneg XH) :: ((Zneg XH) :: ((Zneg
+    XH) :: ((Zneg XH) :: ((Zneg XH) :: ((Zneg XH) :: ((Zneg XH) :: ((Zneg
+    XH) :: ((Zneg XH) :: ((Zneg XH) :: ((Zneg XH) :: ((Zneg XH) :: ((Zneg
+    XH) :: ((Zneg XH) :: ((Zneg XH) :: ((Zneg XH) :: ((Zneg XH) :: ((Zneg
+    XH) :: ((Zneg XH) :: ((Zneg XH) :: ((Zneg XH) :: ((Zneg XH) :: ((Zneg
+    XH) :: ((Zneg XH) :: ((Zneg XH) :: ((Zpos (XO (XI (XI (XI (XI
+    XH)))))) :: ((Zneg XH) :: ((Zneg XH) :: ((Zneg XH) :: ((Zpos (XI (XI (XI
+    (XI (XI XH)))))) :: ((Zpos (XO (XO (XI (XO (XI XH)))))) :: ((Zpos (XI (XO
+    (XI (XO (XI XH)))))) :: ((Zpos (XO (XI (XI (XO (XI XH)))))) :: ((Zpos (XI
+    (XI (XI (XO (XI XH)))))) :: ((Zpos (XO (XO (XO (XI (XI XH)))))) :: ((Zpos
+    (XI (XO (XO (XI (XI XH)))))) :: ((Zpos (XO (XI (XO (XI (XI
+    XH)))))) :: ((Zpos (XI (XI (XO (XI (XI XH)))))) :: ((Zpos (XO (XO (XI (XI
+    (XI XH)))))) :: ((Zpos (XI (XO (XI (XI (XI XH)))))) :: ((Zneg
+    XH) :: ((Zneg XH) :: ((Zneg XH) :: ((Zneg XH) :: ((Zneg XH) :: ((Zneg
+    XH) :: ((Zneg XH) :: (Z0 :: ((Zpos XH) :: ((Zpos (XO XH)) :: ((Zpos (XI
+    XH)) :: ((Zpos (XO (XO XH))) :: ((Zpos (XI (XO XH))) :: ((Zpos (XO (XI
+    XH))) :: ((Zpos (XI (XI XH))) :: ((Zpos (XO (XO (XO XH)))) :: ((Zpos (XI
+    (XO (XO XH)))) :: ((Zpos (XO (XI (XO XH)))) :: ((Zpos (XI (XI (XO
+    XH)))) :: ((Zpos (XO (XO (XI XH)))) :: ((Zpos (XI (XO (XI
+    XH)))) :: ((Zpos (XO (XI (XI XH)))) :: ((Zpos (XI (XI (XI
+    XH)))) :: ((Zpos (XO (XO (XO (XO XH))))) :: ((Zpos (XI (XO (XO (XO
+    XH))))) :: ((Zpos (XO (XI (XO (XO XH))))) :: ((Zpos (XI (XI (XO (XO
+    XH))))) :: ((Zpos (XO (XO (XI (XO XH))))) :: ((Zpos (XI (XO (XI (XO
+    XH))))) :: ((Zpos (XO (XI (XI (XO XH))))) :: ((Zpos (XI (XI (XI (XO
+    XH))))) :: ((Zpos (XO (XO (XO (XI XH))))) :: ((Zpos (XI (XO (XO (XI
+    XH))))) :: ((Zneg XH) :: ((Zneg XH) :: ((Zneg XH) :: ((Zneg XH) :: ((Zneg
+    XH) :: ((Zneg XH) :: ((Zpos (XO (XI (XO (XI XH))))) :: ((Zpos (XI (XI (XO
+    (XI XH))))) :: ((Zpos (XO (XO (XI (XI XH))))) :: ((Zpos (XI (XO (XI (XI
+    XH))))) :: ((Zpos (XO (XI (XI (XI XH))))) :: ((Zpos (XI (XI (XI (XI
+    XH))))) :: ((Zpos (XO (XO (XO (XO (XO XH)))))) :: ((Zpos (XI (XO (XO (XO
+    (XO XH)))))) :: ((Zpos (XO (XI (XO (XO (XO XH)))))) :: ((Zpos (XI (XI (XO
+    (XO (XO XH)))))) :: ((Zpos (XO (XO (XI (XO (XO XH)))))) :: ((Zpos (XI (XO
+    (XI (XO (XO XH)))))) :: ((Zpos (XO (XI (XI (XO (XO XH)))))) :: ((Zpos (XI
+    (XI (XI (XO (XO XH)))))) :: ((Zpos (XO (XO (XO (XI (XO XH)))))) :: ((Zpos
+    (XI (XO (XO (XI (XO XH)))))) :: ((Zpos (XO (XI (XO (XI (XO
+    XH)))))) :: ((Zpos (XI (XI (XO (XI (XO XH)))))) :: ((Zpos (XO (XO (XI (XI
+    (XO XH)))))) :: ((Zpos (XI (XO (XI (XI (XO XH)))))) :: ((Zpos (XO (XI (XI
+    (XI (XO XH)))))) :: ((Zpos (XI (XI (XI (XI (XO XH)))))) :: ((Zpos (XO (XO
+    (XO (XO (XI XH)))))) :: ((Zpos (XI (XO (XO (XO (XI XH)))))) :: ((Zpos (XO
+    (XI (XO (XO (XI XH)))))) :: ((Zpos (XI (XI (XO (XO (XI XH)))))) :: ((Zneg
+    XH) :: ((Zneg XH) :: ((Zneg XH) :: ((Zneg XH) :: ((Zneg XH) :: ((Zneg
+    XH) :: ((Zneg XH) :: ((Zneg XH) :: ((Zneg XH) :: ((Zneg XH) :: ((Zneg
+    XH) :: ((Zneg XH) :: ((Zneg XH) :: ((Zneg XH) :: ((Zneg XH) :: ((Zneg
+    XH) :: ((Zneg XH) :: ((Zneg XH) :: ((Zneg XH) :: ((Zneg XH) :: ((Zneg
+    XH) :: ((Zneg XH) :: ((Zneg XH) :: ((Zneg XH) :: ((Zneg XH) :: ((Zneg
+    XH) :: ((Zneg XH) :: ((Zneg XH) :: ((Zneg XH) :: ((Zneg XH) :: ((Zneg
+    XH) :: ((Zneg XH) :: ((Zneg XH) :: ((Zneg XH) :: ((Zneg XH) :: ((Zneg
+    XH) :: ((Zneg XH) :: ((Zneg XH) :: ((Zneg XH) :: ((Zneg XH) :: ((Zneg
+    XH) :: ((Zneg XH) :: ((Zneg XH) :: ((Zneg XH) :: ((Zneg XH) :: ((Zneg
+    XH) :: ((Zneg XH) :: ((Zneg XH) :: ((Zneg XH) :: ((Zneg XH) :: ((Zneg
+    XH) :: ((Zneg XH) :: ((Zneg XH) :: ((Zneg XH) :: ((Zneg XH) :: ((Zneg
+    XH) :: ((Zneg XH) :: ((Zneg XH) :: ((Zneg XH) :: ((Zneg XH) :: ((Zneg
+    XH) :: ((Zneg XH) :: ((Zneg XH) :: ((Zneg XH) :: ((Zneg XH) :: ((Zneg
+    XH) :: ((Zneg XH) :: ((Zneg XH) :: ((Zneg XH) :: ((Zneg XH) :: ((Zneg
+    XH) :: ((Zneg XH) :: ((Zneg XH) :: ((Zneg XH) :: ((Zneg XH) :: ((Zneg
+    XH) :: ((Zneg XH) :: ((Zneg XH) :: ((Zneg XH) :: ((Zneg XH) :: ((Zneg
+    XH) :: ((Zneg XH) :: ((Zneg XH) :: ((Zneg XH) :: ((Zneg XH) :: ((Zneg
+    XH) :: ((Zneg XH) :: ((Zneg XH) :: ((Zneg XH) :: ((Zneg XH) :: ((Zneg
+    XH) :: ((Zneg XH) :: ((Zneg XH) :: ((Zneg XH) :: ((Zneg XH) :: ((Zneg
+    XH) :: ((Zneg XH) :: ((Zneg XH) :: ((Zneg XH) :: ((Zneg XH) :: ((Zneg
+    XH) :: ((Zneg XH) :: ((Zneg XH) :: ((Zneg XH) :: ((Zneg XH) :: ((Zneg
+    XH) :: ((Zneg XH) :: ((Zneg XH) :: ((Zneg XH) :: ((Zneg XH) :: ((Zneg
+    XH) :: ((Zneg XH) :: ((Zneg XH) :: ((Zneg XH) :: ((Zneg XH) :: ((Zneg
+    XH) :: ((Zneg XH) :: ((Zneg XH) :: ((Zneg XH) :: ((Zneg XH) :: ((Zneg
+    XH) :: ((Zneg XH) :: ((Zneg XH) :: ((Zneg XH) :: ((Zneg XH) :: ((Zneg
+    XH) :: ((Zneg XH) :: ((Zneg XH) :: ((Zneg XH) :: ((Zneg XH) :: ((Zneg
+    XH) :: ((Zneg XH) :: ((Zneg
+    XH) :: [])))))))))))))))))))))))))))))))))))))))))))))))))))))))))))))))))))))))))))))))))))))))))))))))))))))))))))))))))))))))))))))))))))))))))))))))))))))))))))))))))))))))))))))))))))))))))))))))))))))))))))))))))))))))))))))))))))))))))))))))))))))))))))))))
+
+(** val dec_val0 : z **)
+
+let dec_val0 =
+  Z0
+
+(** val dec_valb0 : z **)
+
+let dec_valb0 =
+  Zneg (XO (XO (XO XH)))
+
+(** val dec_pad_char : z **)
+
+let dec_pad_char =
+  Zpos (XI (XO (XI (XI (XI XH)))))
+
+(** val dec_reject : z **)
+
+let dec_reject =
+  Zneg XH
+
+(** val dec_shift : z **)
+
+let dec_shift =
+  Zpos (XO (XI XH))
+
+(** val dec_valb_add : z **)
+
+let dec_valb_add =
+  Zpos (XO (XI XH))
+
+(** val dec_out_bound : z **)
+
+let dec_out_bound =
+  Z0
+
+(** val dec_mask : z **)
+
+let dec_mask =
+  Zpos (XI (XI (XI (XI (XI (XI (XI XH)))))))
+
+(** val dec_valb_sub : z **)
+
+let dec_valb_sub =
+  Zpos (XO (XO (XO XH)))
+
+(** val inv : z -> z **)
+
+let inv c =
+  nth (Z.to_nat c) iNV_TABLE Z0
+
+(** val sel : z -> z -> z -> z **)
+
+let sel val0 valb mask1 =
+  Z.coq_land (Z.shiftr val0 valb) mask1
+
+type dres =
+| DOk of z list
+| DBadChar of z
+| DLengthError
+
+(** val count_padding_rev : z list -> nat **)
+
+let rec count_padding_rev = function
+| [] -> O
+| c :: r' ->
+  if Z.eqb c (Zpos (XI (XO (XI (XI (XI XH))))))
+  then S (count_padding_rev r')
+  else O
+
+(** val count_padding : z list -> nat **)
+
+let count_padding cs =
+  count_padding_rev (rev cs)
+
+(** val dec_loop : z list -> z -> z -> dres **)
+
+let rec dec_loop cs val0 valb =
+  match cs with
+  | [] -> DOk []
+  | c :: r ->
+    if Z.eqb c dec_pad_char
+    then DOk []
+    else if Z.eqb (inv c) dec_reject
+         then DBadChar c
+         else let val' =
+                wrap32
+                  (Z.add (Z.mul val0 (Z.pow (Zpos (XO XH)) dec_shift))
+                    (inv c))
+              in
+              let valb' = Z.add valb dec_valb_add in
+              if Z.geb valb' dec_out_bound
+              then (match dec_loop r val' (Z.sub valb' dec_valb_sub) with
+                    | DOk o -> DOk ((sel val' valb' dec_mask) :: o)
+                    | x -> x)
+              else dec_loop r val' valb'
+
+(** val base64_decode : z list -> dres **)
+
+let base64_decode cs =
+  if Z.ltb
+       (Z.div (Z.mul (Z.of_nat (length cs)) (Zpos (XI XH))) (Zpos (XO (XO
+         XH)))) (Z.of_nat (count_padding cs))
+  then DLengthError
+  else dec_loop cs dec_val0 dec_valb0
+
+type line = z list
+
+(** val long_keep : n -> line -> bool **)
+
+let long_keep limit l =
+  N.leb (N.of_nat (length l)) limit
+
+(** val remove_long_lines : n -> line list -> line list **)
+
+let remove_long_lines limit ls =
+  filter (long_keep limit) ls
+
+(** val trail : z -> bool **)
+
+let trail b =
+  (&&) (Z.leb (Zpos (XO (XO (XO (XO (XO (XO (XO XH)))))))) b)
+    (Z.leb b (Zpos (XI (XI (XI (XI (XI (XI (XO XH)))))))))
+
+(** val decode1 : z list -> (z * z list) option **)
+
+let decode1 = function
+| [] -> None
+| b0 :: r0 ->
+  if Z.ltb b0 (Zpos (XO (XO (XO (XO (XO (XO (XO XH))))))))
+  then Some (b0, r0)
+  else (match r0 with
+        | [] -> None
+        | b1 :: r1 ->
+          if (&&)
+               ((&&) (Z.leb (Zpos (XO (XI (XO (XO (XO (XO (XI XH)))))))) b0)
+                 (Z.leb b0 (Zpos (XI (XI (XI (XI (XI (XO (XI XH))))))))))
+               (trail b1)
+          then Some
+                 ((Z.add
+                    (Z.mul
+                      (Z.sub b0 (Zpos (XO (XO (XO (XO (XO (XO (XI XH)))))))))
+                      (Zpos (XO (XO (XO (XO (XO (XO XH))))))))
+                    (Z.sub b1 (Zpos (XO (XO (XO (XO (XO (XO (XO XH)))))))))),
+                 r1)
+          else (match r1 with
+                | [] -> None
+                | b2 :: r2 ->
+                  if (&&)
+                       ((||)
+                         ((||)
+                           ((||)
+                             ((&&)
+                               ((&&)
+                                 (Z.eqb b0 (Zpos (XO (XO (XO (XO (XO (XI (XI
+                                   XH)))))))))
+                                 (Z.leb (Zpos (XO (XO (XO (XO (XO (XI (XO
+                                   XH)))))))) b1))
+                               (Z.leb b1 (Zpos (XI (XI (XI (XI (XI (XI (XO
+                                 XH))))))))))
+                             ((&&)
+                               ((&&)
+                                 (Z.leb (Zpos (XI (XO (XO (XO (XO (XI (XI
+                                   XH)))))))) b0)
+                                 (Z.leb b0 (Zpos (XO (XO (XI (XI (XO (XI (XI
+                                   XH)))))))))) (trail b1)))
+                           ((&&)
+                             ((&&)
+                               (Z.eqb b0 (Zpos (XI (XO (XI (XI (XO (XI (XI
+                                 XH)))))))))
+                               (Z.leb (Zpos (XO (XO (XO (XO (XO (XO (XO
+                                 XH)))))))) b1))
+                             (Z.leb b1 (Zpos (XI (XI (XI (XI (XI (XO (XO
+                               XH)))))))))))
+                         ((&&)
+                           ((&&)
+                             (Z.leb (Zpos (XO (XI (XI (XI (XO (XI (XI
+                               XH)))))))) b0)
+                             (Z.leb b0 (Zpos (XI (XI (XI (XI (XO (XI (XI
+                               XH)))))))))) (trail b1))) (trail b2)
+                  then Some
+                         ((Z.add
+                            (Z.add
+                              (Z.mul
+                                (Z.sub b0 (Zpos (XO (XO (XO (XO (XO (XI (XI
+                                  XH))))))))) (Zpos (XO (XO (XO (XO (XO (XO
+                                (XO (XO (XO (XO (XO (XO XH))))))))))))))
+                              (Z.mul
+                                (Z.sub b1 (Zpos (XO (XO (XO (XO (XO (XO (XO
+                                  XH))))))))) (Zpos (XO (XO (XO (XO (XO (XO
+                                XH)))))))))
+                            (Z.sub b2 (Zpos (XO (XO (XO (XO (XO (XO (XO
+                              XH)))))))))), r2)
+                  else (match r2 with
+                        | [] -> None
+                        | b3 :: r3 ->
+                          if (&&)
+                               ((&&)
+                                 ((||)
+                                   ((||)
+                                     ((&&)
+                                       ((&&)
+                                         (Z.eqb b0 (Zpos (XO (XO (XO (XO (XI
+                                           (XI (XI XH)))))))))
+                                         (Z.leb (Zpos (XO (XO (XO (XO (XI (XO
+                                           (XO XH)))))))) b1))
+                                       (Z.leb b1 (Zpos (XI (XI (XI (XI (XI
+                                         (XI (XO XH))))))))))
+                                     ((&&)
+                                       ((&&)
+                                         (Z.leb (Zpos (XI (XO (XO (XO (XI (XI
+                                           (XI XH)))))))) b0)
+                                         (Z.leb b0 (Zpos (XI (XI (XO (XO (XI
+                                           (XI (XI XH)))))))))) (trail b1)))
+                                   ((&&)
+                                     ((&&)
+                                       (Z.eqb b0 (Zpos (XO (XO (XI (XO (XI
+                                         (XI (XI XH)))))))))
+                                       (Z.leb (Zpos (XO (XO (XO (XO (XO (XO
+                                         (XO XH)))))))) b1))
+                                     (Z.leb b1 (Zpos (XI (XI (XI (XI (XO (XO
+                                       (XO XH))))))))))) (trail b2))
+                               (trail b3)
+                          then Some
+                                 ((Z.add
+                                    (Z.add
+                                      (Z.add
+                                        (Z.mul
+                                          (Z.sub b0 (Zpos (XO (XO (XO (XO (XI
+                                            (XI (XI XH))))))))) (Zpos (XO (XO
+                                          (XO (XO (XO (XO (XO (XO (XO (XO (XO
+                                          (XO (XO (XO (XO (XO (XO (XO
+                                          XH))))))))))))))))))))
+                                        (Z.mul
+                                          (Z.sub b1 (Zpos (XO (XO (XO (XO (XO
+                                            (XO (XO XH))))))))) (Zpos (XO (XO
+                                          (XO (XO (XO (XO (XO (XO (XO (XO (XO
+                                          (XO XH)))))))))))))))
+                                      (Z.mul
+                                        (Z.sub b2 (Zpos (XO (XO (XO (XO (XO
+                                          (XO (XO XH))))))))) (Zpos (XO (XO
+                                        (XO (XO (XO (XO XH)))))))))
+                                    (Z.sub b3 (Zpos (XO (XO (XO (XO (XO (XO
+                                      (XO XH)))))))))), r3)
+                          else None)))
+
+(** val wf_utf8_fuel : nat -> z list -> bool **)
+
+let rec wf_utf8_fuel fuel bs = match bs with
+| [] -> true
+| _ :: _ ->
+  (match fuel with
+   | O -> false
+   | S f ->
+     (match decode1 bs with
+      | Some p -> let (_, r) = p in wf_utf8_fuel f r
+      | None -> false))
+
+(** val wf_utf8 : z list -> bool **)
+
+let wf_utf8 bs =
+  wf_utf8_fuel (length bs) bs
+
+(** val remove_invalid_utf8 : line list -> line list **)
+
+let remove_invalid_utf8 ls =
+  filter wf_utf8 ls
+
+(** val remove_invalid_utf8_base64 : line list -> line list option **)
+
+let rec remove_invalid_utf8_base64 = function
+| [] -> Some []
+| l :: r ->
+  (match base64_decode l with
+   | DOk decoded ->
+     (match remove_invalid_utf8_base64 r with
+      | Some out -> Some ((if wf_utf8 decoded then l else []) :: out)
+      | None -> None)
+   | _ -> None)
+
+(** val subtract_load : (line -> n) -> dstate -> line list -> dstate res **)
+
+let rec subtract_load key s = function
+| [] -> Ok s
+| l :: r ->
+  bind (seen_pass subtract_has_reserved_guard invalid s (key l)) (fun x ->
+    subtract_load key (snd x) r)
+
+(** val subtract_filter :
+    (line -> n) -> dstate -> line list -> line list res **)
+
+let rec subtract_filter key s = function
+| [] -> Ok []
+| l :: r ->
+  bind (seen_find subtract_has_reserved_guard invalid s (key l))
+    (fun present ->
+    bind (subtract_filter key s r) (fun out -> Ok
+      (if present then out else l :: out)))
+
+(** val subtract_lines :
+    (line -> n) -> line list -> line list -> line list res **)
+
+let subtract_lines key sub0 ls =
+  bind (subtract_load key dedupe_init sub0) (fun s ->
+    subtract_filter key s ls)
+
+(** val is_space : z -> bool **)
+
+let is_space b =
+  nth (Z.to_nat b) kSpaces false
+
+(** val drop_spaces : line -> line **)
+
+let rec drop_spaces l = match l with
+| [] -> []
+| b :: r -> if is_space b then drop_spaces r else l
+
+(** val strip_spaces : line -> line **)
+
+let strip_spaces l =
+  rev (drop_spaces (rev (drop_spaces l)))
+
+(** val starts_with : line -> line -> bool **)
+
+let rec starts_with l = function
+| [] -> true
+| c :: p' ->
+  (match l with
+   | [] -> false
+   | b :: l' -> (&&) (Z.eqb b c) (starts_with l' p'))
+
+(** val is_new_line : (line -> n) -> dstate -> line -> (bool * dstate) res **)
+
+let is_new_line key s l =
+  seen_pass cc_has_reserved_guard invalid s (key l)
+
+(** val cc_load : (line -> n) -> dstate -> line list -> dstate res **)
+
+let rec cc_load key s = function
+| [] -> Ok s
+| l :: r ->
+  bind (is_new_line key s (strip_spaces l)) (fun x -> cc_load key (snd x) r)
+
+(** val cc_filter : (line -> n) -> dstate -> line list -> line list res **)
+
+let rec cc_filter key s = function
+| [] -> Ok []
+| l0 :: r ->
+  let l = strip_spaces l0 in
+  if starts_with l cc_magic
+  then cc_filter key s r
+  else bind (is_new_line key s l) (fun x ->
+         bind (cc_filter key (snd x) r) (fun out -> Ok
+           (if (&&) (fst x) (wf_utf8 l) then l :: out else out)))
+
+(** val commoncrawl_dedupe :
+    (line -> n) -> line list -> line list -> line list res **)
+
+let commoncrawl_dedupe key rem ls =
+  bind (cc_load key dedupe_init rem) (fun s -> cc_filter key s ls)
+
+(** val subtract_spec : (line -> n) -> line list -> line list -> line list **)
+
+let subtract_spec key sub0 ls =
+  filter (fun l -> negb (mem (key l) (map key sub0))) ls
+
+(** val cc_spec : (line -> n) -> line list -> line list -> line list **)
+
+let cc_spec key rem ls =
+  filter wf_utf8
+    (first_occ_from key (map key (map strip_spaces rem))
+      (filter (fun l -> negb (starts_with l cc_magic)) (map strip_spaces ls)))
+
+type sc_options = { sc_min_chars : n; sc_character_run : n;
+                    sc_min_punct_sample_size : n; sc_nscripts : nat }
+
+(** val two0 : n **)
+
+let two0 =
+  Npos (XO (XO (XO (XO (XO (XO (XO (XO (XO (XO (XO (XO (XO (XO (XO (XO (XO
+    (XO (XO (XO (XO (XO (XO (XO (XO (XO (XO (XO (XO (XO (XO (XO (XO (XO (XO
+    (XO (XO (XO (XO (XO (XO (XO (XO (XO (XO (XO (XO (XO (XO (XO (XO (XO (XO
+    (XO (XO (XO (XO (XO (XO (XO (XO (XO (XO (XO
+    XH))))))))))))))))))))))))))))))))))))))))))))))))))))))))))))))))
+
+type sc_state = { counts : (n -> n); punct : n; spaces : n; total : n;
+                  previous : z; previous_run : n }
+
+(** val sc_init : sc_state **)
+
+let sc_init =
+  { counts = (fun _ -> N0); punct = N0; spaces = N0; total = N0; previous =
+    Z0; previous_run = N0 }
+
+(** val sc_char :
+    (z -> n option) -> (z -> bool) -> (z -> bool) -> sc_options -> sc_state
+    -> z -> sc_state option **)
+
+let sc_char script_of is_punct is_uspace o st c =
+  if (&&)
+       ((&&) (Z.ltb c sc_control_bound)
+         (negb (Z.eqb c (Zpos (XI (XO (XO XH)))))))
+       (negb (Z.eqb c (Zpos (XI (XO (XI XH))))))
+  then None
+  else (match script_of c with
+        | Some sc ->
+          let counts' = fun x ->
+            if N.eqb x sc then N.add (st.counts x) (Npos XH) else st.counts x
+          in
+          let punct' =
+            if is_punct c then N.add st.punct (Npos XH) else st.punct
+          in
+          let spaces' =
+            if is_uspace c then N.add st.spaces (Npos XH) else st.spaces
+          in
+          if Z.eqb st.previous c
+          then let run = N.add st.previous_run (Npos XH) in
+               if (&&) (N.leb o.sc_character_run run) (negb (is_uspace c))
+               then None
+               else Some { counts = counts'; punct = punct'; spaces =
+                      spaces'; total = (N.add st.total (Npos XH)); previous =
+                      st.previous; previous_run = run }
+          else Some { counts = counts'; punct = punct'; spaces = spaces';
+                 total = (N.add st.total (Npos XH)); previous = c;
+                 previous_run = (Npos XH) }
+        | None -> None)
+
+(** val sc_loop :
+    (z -> n option) -> (z -> bool) -> (z -> bool) -> sc_options -> nat ->
+    sc_state -> z list -> sc_state option **)
+
+let rec sc_loop script_of is_punct is_uspace o fuel st bs = match bs with
+| [] -> Some st
+| _ :: _ ->
+  (match fuel with
+   | O -> None
+   | S f ->
+     (match decode1 bs with
+      | Some p ->
+        let (c, r) = p in
+        (match sc_char script_of is_punct is_uspace o st c with
+         | Some st' -> sc_loop script_of is_punct is_uspace o f st' r
+         | None -> None)
+      | None -> None))
+
+(** val sc_filter :
+    (z -> n option) -> (z -> bool) -> (z -> bool) -> n -> n -> (n -> n ->
+    bool) -> (n -> n -> bool) -> ((n -> n) -> n -> bool) -> sc_options ->
+    line -> bool **)
+
+let sc_filter script_of is_punct is_uspace script_common script_inherited too_common little_punct script_low o l =
+  match sc_loop script_of is_punct is_uspace o (length l) sc_init l with
+  | Some st ->
+    let characters = st.total in
+    if N.ltb characters o.sc_min_chars
+    then false
+    else let common_inherited =
+           N.modulo
+             (N.sub
+               (N.add
+                 (N.add (st.counts script_inherited)
+                   (st.counts script_common)) two0) st.spaces) two0
+         in
+         if too_common common_inherited characters
+         then false
+         else if (&&) (N.ltb o.sc_min_punct_sample_size characters)
+                   (little_punct st.punct characters)
+              then false
+              else if (&&) (negb (Nat.eqb o.sc_nscripts O))
+                        (script_low st.counts characters)
+                   then false
+                   else true
+  | None -> false
+
+(** val split_first : z -> z list -> z list -> z list * z list option **)
+
+let rec split_first d bs acc =
+  match bs with
+  | [] -> ((rev acc), None)
+  | b :: r ->
+    if Z.eqb b d then ((rev acc), (Some r)) else split_first d r (b :: acc)
+
+(** val skip_fields : nat -> z -> z list -> z list option **)
+
+let rec skip_fields n0 d rest =
+  match n0 with
+  | O -> Some rest
+  | S n' ->
+    (match snd (split_first d rest []) with
+     | Some r -> (match r with
+                  | [] -> None
+                  | _ :: _ -> skip_fields n' d r)
+     | None -> None)
+
+(** val take_fields :
+    (z -> n option) -> (z -> bool) -> (z -> bool) -> n -> n -> (n -> n ->
+    bool) -> (n -> n -> bool) -> ((n -> n) -> n -> bool) -> sc_options -> nat
+    -> nat option -> z -> z list -> (bool, z list) sum **)
+
+let rec take_fields script_of is_punct is_uspace script_common script_inherited too_common little_punct script_low o fuel n0 d rest =
+  match fuel with
+  | O -> Inl true
+  | S fuel' ->
+    (match n0 with
+     | Some n1 ->
+       (match n1 with
+        | O -> Inr rest
+        | S _ ->
+          let (field, after) = split_first d rest [] in
+          if negb
+               (sc_filter script_of is_punct is_uspace script_common
+                 script_inherited too_common little_punct script_low o field)
+          then Inl false
+          else (match after with
+                | Some r ->
+                  (match r with
+                   | [] -> Inl true
+                   | _ :: _ ->
+                     take_fields script_of is_punct is_uspace script_common
+                       script_inherited too_common little_punct script_low o
+                       fuel'
+                       (match n0 with
+                        | Some n2 -> (match n2 with
+                                      | O -> None
+                                      | S k -> Some k)
+                        | None -> None) d r)
+                | None -> Inl true))
+     | None ->
+       let (field, after) = split_first d rest [] in
+       if negb
+            (sc_filter script_of is_punct is_uspace script_common
+              script_inherited too_common little_punct script_low o field)
+       then Inl false
+       else (match after with
+             | Some r ->
+               (match r with
+                | [] -> Inl true
+                | _ :: _ ->
+                  take_fields script_of is_punct is_uspace script_common
+                    script_inherited too_common little_punct script_low o
+                    fuel'
+                    (match n0 with
+                     | Some n1 -> (match n1 with
+                                   | O -> None
+                                   | S k -> Some k)
+                     | None -> None) d r)
+             | None -> Inl true))
+
+(** val individual_fields :
+    (z -> n option) -> (z -> bool) -> (z -> bool) -> n -> n -> (n -> n ->
+    bool) -> (n -> n -> bool) -> ((n -> n) -> n -> bool) -> sc_options ->
+    (nat * nat option) list -> nat -> z -> z list -> bool **)
+
+let rec individual_fields script_of is_punct is_uspace script_common script_inherited too_common little_punct script_low o ranges index d rest =
+  match ranges with
+  | [] -> true
+  | p :: more ->
+    let (b, e) = p in
+    (match skip_fields (sub b index) d rest with
+     | Some rest1 ->
+       let idx1 = Nat.max index b in
+       (match take_fields script_of is_punct is_uspace script_common
+                script_inherited too_common little_punct script_low o (S
+                (length rest1))
+                (match e with
+                 | Some e' -> Some (sub e' idx1)
+                 | None -> None) d rest1 with
+        | Inl r -> r
+        | Inr rest2 ->
+          individual_fields script_of is_punct is_uspace script_common
+            script_inherited too_common little_punct script_low o more
+            (match e with
+             | Some e' -> Nat.max idx1 e'
+             | None -> idx1) d rest2)
+     | None -> true)
+
+(** val sc_line_keep :
+    (z -> n option) -> (z -> bool) -> (z -> bool) -> n -> n -> (n -> n ->
+    bool) -> (n -> n -> bool) -> ((n -> n) -> n -> bool) -> sc_options ->
+    (nat * nat option) list -> z -> line -> bool **)
+
+let sc_line_keep script_of is_punct is_uspace script_common script_inherited too_common little_punct script_low o ranges d l =
+  individual_fields script_of is_punct is_uspace script_common
+    script_inherited too_common little_punct script_low o ranges O d l
+
+(** val simple_cleaning :
+    (z -> n option) -> (z -> bool) -> (z -> bool) -> n -> n -> (n -> n ->
+    bool) -> (n -> n -> bool) -> ((n -> n) -> n -> bool) -> sc_options ->
+    (nat * nat option) list -> z -> line list -> line list **)
+
+let simple_cleaning script_of is_punct is_uspace script_common script_inherited too_common little_punct script_low o ranges d ls =
+  filter
+    (sc_line_keep script_of is_punct is_uspace script_common script_inherited
+      too_common little_punct script_low o ranges d) ls
+
+(** val lines_of : z list -> line list **)
+
+let lines_of input =
+  records newline true input
+
+(** val bytes_of : line list -> z list **)
+
+let bytes_of ls =
+  unrecords newline ls
